@@ -945,6 +945,16 @@ def laws(W, rec):
                 except ZeroDivisionError:
                     outcomes.append(("ZeroDivisionError",))
             law("C08/combined-get-converter-errors", outcomes[:2] == outcomes[2:], f"get({k!r}, type=...) on the combined view {outcomes[:2]!r}, on a MultiDict with the same content {outcomes[2:]!r}", case)
+        # typed reads over stored values that are not text (None, a list, a tuple, a number): a value the converter refuses with
+        # ValueError or TypeError is left out of getlist and means "default" for get, on every variant alike
+        mixed = [("n", "1"), ("n", None), ("n", ["2"]), ("n", "x"), ("n", 3), ("n", ("4",)), ("n", 5.5), ("m", None)]
+        for cont in (DS.MultiDict(mixed), DS.ImmutableMultiDict(mixed), DS.OrderedMultiDict(mixed) if hasattr(DS, "OrderedMultiDict") else DS.MultiDict(mixed),
+                     DS.CombinedMultiDict([DS.MultiDict(mixed[:3]), DS.MultiDict(mixed[3:])])):
+            try:
+                got = (cont.getlist("n", type=int), cont.getlist("m", type=int), cont.get("m", "dflt", type=int), cont.get("n", type=int), cont.getlist("n", type=float))
+            except (TypeError, ValueError) as e:
+                got = repr(e)
+            law(f"C08/typed-read-of-refused-values:{type(cont).__name__}", got == ([1, 3, 5], [], "dflt", 1, [1.0, 3.0, 5.5]), f"typed reads over {mixed!r}: {got!r}", case)
         # equality and hashing follow the content (the concatenation of the parts), like every other variant
         twin = DS.CombinedMultiDict([DS.MultiDict(p1), DS.MultiDict(p2)])
         law("C08/eq-hash:CombinedMultiDict", c == twin and not (c != twin) and hash(c) == hash(twin), f"equal views: == {c == twin}, != {c != twin}, hashes equal {hash(c) == hash(twin)}", case)
